@@ -1,6 +1,7 @@
 /- driver glue for C11 (static part): directive strings over the fixed metadata metaUniverse -/
 import TracingModel.Core.Directive
 import TracingModel.Core.Wire
+import TracingModel.Core.FilterExpr
 
 namespace TM.DirectiveDriver
 open TM.Directive TM.Wire
@@ -46,5 +47,81 @@ def model (toks : List String) : String :=
       | none => "err"
       | some ds => s!"ok {bits ds} {ds.maxLevel}"
   | _ => "bad-case"
+
+end TM.DirectiveDriver
+
+namespace TM.DirectiveDriver
+open TM.Directive TM.Wire
+open TM (Str ofString)
+open TM.FilterExpr TM.FilterExpr.FExpr
+open TM.Callsite (Interest)
+
+def containsSub (hay needle : Str) : Bool :=
+  match hay with
+  | [] => needle.isEmpty
+  | _ :: rest => isPrefix needle hay || containsSub rest needle
+
+def predOf (pred k : Nat) (m : Meta) : Bool :=
+  match pred with
+  | 0 => decide (m.level ≤ k)
+  | 1 => containsSub m.target (ofString "db") && decide (m.level ≤ k)
+  | _ => !m.isEvent && decide (m.level ≤ k)
+
+def digit (c : Char) : Nat := c.toNat - 48
+
+def hintOf (s : String) : Option Nat := if s == "-" then none else s.toNat?
+
+/-- parse one prefix expression; returns it and the remaining tokens -/
+def parseExpr : Nat → List String → Option (FExpr × List String)
+  | 0, _ => none
+  | _ + 1, [] => none
+  | fuel + 1, t :: rest =>
+    match t.toList with
+    | 'L' :: l => (String.ofList l).toNat?.map fun l => (level l, rest)
+    | 'T' :: h => do
+      let s ← strOfHex (String.ofList h)
+      let ds ← parseTargets s
+      pure (targets ds, rest)
+    | 'E' :: h => do
+      let s ← strOfHex (String.ofList h)
+      let ds ← parseEnv s          -- static directives only
+      pure (targets ds, rest)
+    | 'F' :: p :: k :: 'h' :: hint => some (fn (predOf (digit p) (digit k)) (hintOf (String.ofList hint)), rest)
+    | 'D' :: k :: 'h' :: r =>
+      let hs := String.ofList (r.takeWhile (· ≠ 'c'))
+      let cs := String.ofList ((r.dropWhile (· ≠ 'c')).drop 1)
+      let kk := digit k
+      let g : Option (Meta → Interest) := if cs == "-" then none else some (fun m => if m.level ≤ kk then .sometimes else .never)
+      some (dyn (fun m c => c == 1 && decide (m.level ≤ kk)) (hintOf hs) g, rest)
+    | ['N'] => some (optNone, rest)
+    | ['S'] => (parseExpr fuel rest).map fun (e, r) => (optSome e, r)
+    | ['&'] => do
+      let (a, r1) ← parseExpr fuel rest
+      let (b, r2) ← parseExpr fuel r1
+      pure (conj a b, r2)
+    | ['|'] => do
+      let (a, r1) ← parseExpr fuel rest
+      let (b, r2) ← parseExpr fuel r1
+      pure (disj a b, r2)
+    | ['!'] => (parseExpr fuel rest).map fun (e, r) => (neg e, r)
+    | ['R'] => (parseExpr fuel rest).map fun (e, r) => (reload e, r)
+    | ['B'] => (parseExpr fuel rest).map fun (e, r) => (boxed e, r)
+    | _ => none
+
+def ichar : Interest → Char | .always => 'a' | .sometimes => 's' | .never => 'n'
+
+def exprModel (toks : List String) : String :=
+  match parseExpr (toks.length + 1) toks with
+  | some (e, []) =>
+    let cs := String.ofList (metaUniverse.map fun m => ichar (callsiteF e m))
+    let h := match hintF e with | some l => toString l | none => "-"
+    let en (c : Nat) := String.ofList (metaUniverse.map fun m => if enabledF e m c then '1' else '0')
+    s!"ok {cs} {h} {en 0} {en 1}"
+  | _ => "bad-case"
+
+def model2 (toks : List String) : String :=
+  match toks with
+  | "X" :: rest => exprModel rest
+  | _ => model toks
 
 end TM.DirectiveDriver
